@@ -66,8 +66,9 @@ func (j *Journal) add(tok string) {
 	j.tokens = append(j.tokens, tok)
 	j.mu.Unlock()
 }
-func (j *Journal) note(s string) { j.mu.Lock(); j.notes = append(j.notes, s); j.mu.Unlock() }
-func (j *Journal) setFailed()    { j.mu.Lock(); j.failed = true; j.mu.Unlock() }
+func (j *Journal) note(s string)  { j.mu.Lock(); j.notes = append(j.notes, s); j.mu.Unlock() }
+func (j *Journal) isFailed() bool { j.mu.Lock(); defer j.mu.Unlock(); return j.failed }
+func (j *Journal) setFailed()     { j.mu.Lock(); j.failed = true; j.mu.Unlock() }
 func (j *Journal) setVerdict() {
 	j.mu.Lock()
 	j.verdict = true
@@ -198,13 +199,17 @@ func serve(c net.Conn, sc *Script, j *Journal) {
 			return
 		}
 
+		// while the raw exchange is on, something that is plainly a Kafka request of this
+		// client (header with client id "c18") is journalled and served as a request
+		looksFramed := len(body) >= 13 && body[0] == 0 && body[1] < 68 && body[2] == 0 && body[3] < 16 &&
+			body[8] == 0 && body[9] == 3 && string(body[10:13]) == "c18"
+		wasRaw := raw
+		if raw && looksFramed {
+			raw = false
+		}
 		if raw {
 			// raw SASL bytes after a v0 handshake
-			if len(body) >= 4 && body[0] == 0 && body[1] == 36 && body[2] == 0 && body[3] <= 2 {
-				j.add("24." + fmt.Sprint(body[3]) + "?framed-after-v0")
-			} else {
-				j.add("raw")
-			}
+			j.add("raw")
 			k := 2 + authStep
 			authStep++
 			kind := fault(k)
@@ -252,7 +257,11 @@ func serve(c net.Conn, sc *Script, j *Journal) {
 		key := int16(binary.BigEndian.Uint16(body[0:2]))
 		ver := int16(binary.BigEndian.Uint16(body[2:4]))
 		corr := int32(binary.BigEndian.Uint32(body[4:8]))
-		j.add(tok(key, ver))
+		if wasRaw && !j.isFailed() {
+			j.add(tok(key, ver) + "?framed-in-raw-exchange")
+		} else {
+			j.add(tok(key, ver))
+		}
 		_, _, _, msg, derr := protocol.ReadRequest(bytes.NewReader(append(lenb[:], body...)))
 		if derr != nil {
 			j.note(fmt.Sprintf("undecodable request key=%d ver=%d: %v", key, ver, derr))
